@@ -92,8 +92,10 @@ def gen_case(rng, idx, tier):
                 if v.hard in ("upper", "both"):
                     hv[t] = min(hv[t], v.hi - 0.03125)
     runs = sorted(rng.sample(range(2, T - 1), 2)) if rng.random() < 0.5 else []
+    # the job continues a long simulation: its first step is large (beyond 2^31 for some), the schedules count absolute steps
+    start = rng.choice([0, 0, 0, 1000003, 2147483600, 6000000000])
     return dict(idx=idx, vs=vs, hist=hist, T=T, grids=grids, hf=hf, gf=gf, wt=wt, dT=rng.choice([1000.0, 3000.0]),
-                hw=hw, W=W, keep=(grids and rng.random() < 0.3), runs=runs)
+                hw=hw, W=W, keep=(grids and rng.random() < 0.3), runs=runs, start=start)
 
 
 def config(case):
@@ -126,7 +128,7 @@ def config(case):
 
 def scenario(case):
     s = ctl.header("off", extra="dt 1.0\ntemp 300.0")
-    s += "emit atoms off\nkeeplog on\nmodule\nconfig <<EOC\n" + config(case) + "EOC\ninit\n"
+    s += "emit atoms off\nkeeplog on\nmodule\n" + ("setstep %d\n" % case["start"] if case.get("start") else "") + "config <<EOC\n" + config(case) + "EOC\ninit\n"
     for t in range(case["T"] + 1):
         kw = {v.name: h[t] for v, h in zip(case["vs"], case["hist"])}
         if t in case["runs"]:
@@ -237,7 +239,7 @@ def check_case(c, case, ev, sp):
     pending_steps = 0
     for e, rep in seq:
         t = e["it"]
-        x = [v.wrap(h[t]) for v, h in zip(m.vs, case["hist"])]
+        x = [v.wrap(h[t - case.get("start", 0)]) for v, h in zip(m.vs, case["hist"])]
         for v, xi in zip(m.vs, x):
             if fl(e["cv"][v.name]["x"][0]) != xi:
                 c.violation("value_not_imposed:" + key, "step %d %s" % (t, v.name), [sp])
